@@ -809,10 +809,13 @@ func (ps *PruningStorer) changeEpochWithExisting(epoch uint32) error {
 
 	for _, p := range persisters {
 		if p.getIsClosed() {
-			_, err = ps.persisterFactory.Create(p.path)
+			var persister storage.Persister
+			persister, err = ps.persisterFactory.Create(p.path)
 			if err != nil {
 				return err
 			}
+			// the re-opened persister has to be used, otherwise the active persister remains closed
+			p.setPersisterAndIsClosed(persister, false)
 		}
 
 		activePersisters = append(activePersisters, p)
